@@ -702,6 +702,7 @@ def handler_table(unit_monitors=False):
     from . import handlers3 as H3
     t = {
         ('Container', '__init__'): H1.HContainerInit(),
+        ('Plate', '__init__'): H1.HPlateInit(),
         ('Container', 'transfer'): H1.HContainerTransfer(),
         ('Plate', 'transfer'): H1.HPlateTransfer(),
         ('Container', 'remove'): HContainerRemove(),
